@@ -44,10 +44,15 @@ def _one(prop, t, repo, target_dir):
     try:
         d = scratch_copy(repo)
         if t['kind'] == 'revert-fix':
-            diff = sh(['git', '-C', repo, 'show', '--format=', t['commit'], '--', 'src'])
-            if diff.returncode != 0 or not diff.stdout.strip():
-                return dict(name=name, ok=True, skipped=True, detail='fix commit %s not found in %s' % (t['commit'], repo))
-            p = subprocess.run(['patch', '-R', '-p1', '--no-backup-if-mismatch', '-s'], input=diff.stdout, text=True, cwd=d, stdout=subprocess.PIPE, stderr=subprocess.STDOUT)
+            # a repair may consist of several commits (newest first, comma separated): reverse them in that order
+            p = None
+            for commit in t['commit'].split(','):
+                diff = sh(['git', '-C', repo, 'show', '--format=', commit, '--', 'src'])
+                if diff.returncode != 0 or not diff.stdout.strip():
+                    return dict(name=name, ok=True, skipped=True, detail='fix commit %s not found in %s' % (commit, repo))
+                p = subprocess.run(['patch', '-R', '-p1', '--no-backup-if-mismatch', '-s'], input=diff.stdout, text=True, cwd=d, stdout=subprocess.PIPE, stderr=subprocess.STDOUT)
+                if p.returncode != 0:
+                    break
         else:
             diff = open(t['patch'] if t['kind'] == 'benign' else os.path.join(VERIF, 'seeded', t['seed'], 'patch.diff')).read()
             p = subprocess.run(['patch', '-p1', '--no-backup-if-mismatch', '-s'], input=diff, text=True, cwd=d, stdout=subprocess.PIPE, stderr=subprocess.STDOUT)
